@@ -31,7 +31,8 @@ EXPLANATION = (
     "complement eta^2 (2 w w' - J), proved as rational-function identities on the hyperboloid; (R9) the composite cone hands "
     "every cone exactly its own range of every vector argument."
     " (R10) dense second-order cone KKT block: packed upper triangle of eta^2 (2 w w' - J) - entry (0,0) = 2 w0^2 - 1 modulo (sqrt 2)^2 = 2, later columns 2 w_r w_c with +1 on the diagonal, scaled by eta^2."
-    " (R11) identity scaling of the second-order cone: w = (1, 0), eta = 1 and the sparse expansion satisfies d + u0^2 - v0^2 = 1 (modulo (1/sqrt 2)^2 = 1/2) with zero tails.")
+    " (R11) identity scaling of the second-order cone: w = (1, 0), eta = 1 and the sparse expansion satisfies d + u0^2 - v0^2 = 1 (modulo (1/sqrt 2)^2 = 1/2) with zero tails."
+    " (R12) the interior test of the second-order cone scaling is residual > 0 exactly.")
 ASSUMPTIONS = ['rustc MIR construction and trait resolution are correct',
                'sqrt, *, /, dot, norm, axpby, waxpby, scale on T are the real operations (identities are over the reals, not floating point); s, z interior',
                'the diagonal KKT block is minus get_Hs (decided under C11)']
@@ -944,6 +945,29 @@ def soc_identity_expansion(rep, ctx, cfg, tag):
     R.guard(body)
 
 
+def soc_interior_test(rep, ctx, cfg, tag):
+    """The scaling exists for every interior pair: _sqrt_soc_residual decides interiority by residual > 0 exactly.  The residual scales
+    with the square of the point, so any absolute tolerance rejects small interior points (z of the order of mu near convergence)."""
+    R = rep.rule('C13.R12', 'second-order cone: the interior test of the scaling update is residual > 0 exactly (no absolute tolerance)')
+
+    def body():
+        F = ctx.facts(cfg)
+        f = F.one(name='_sqrt_soc_residual')
+        rows = set()
+        for val, ret, ev, tr in Walker(f).leaves():
+            if ret[0] not in ('s', 'c'):
+                continue
+            ks = [k for k in val if k[:3] in ('lt(', 'le(')]
+            R.check(ks == ['lt(zero(), _soc_residual(arg1))'], 'threshold' + tag,
+                    '_sqrt_soc_residual tests %s, expected residual > 0: the residual is homogeneous of degree 2, an absolute threshold rejects strictly interior points of small norm '
+                    'and update_scaling then fails (NumericalError) near convergence' % ks, f.loc())
+            if ks:
+                rows.add((val[ks[0]], str(ret[1])))
+        R.check(rows == {(1, 'sqrt(_soc_residual(arg1))'), (0, 'zero()')}, 'table' + tag, '_sqrt_soc_residual returns %s' % sorted(rows), f.loc())
+
+    R.guard(body)
+
+
 def run(ctx, rep, tier):
     for cfg in (CONFIGS_THOROUGH if tier == 'thorough' else CONFIGS):
         tag = '' if cfg == 'default' else '[%s]' % cfg
@@ -957,6 +981,7 @@ def run(ctx, rep, tier):
         composite_slices(rep, ctx.facts(cfg), tag)
         soc_dense_block(rep, ctx, cfg, tag)
         soc_identity_expansion(rep, ctx, cfg, tag)
+        soc_interior_test(rep, ctx, cfg, tag)
     from . import c11
     F, E = ctx.facts('default'), ctx.eff('default')
     c11.one_scaling_state(_Ren(rep, 'C11.R5', 'C13.R3'), F, E, '')
